@@ -55,6 +55,9 @@ func (l *ledger) summary() string {
 	for k := range l.misrouted {
 		parts = append(parts, "mis:"+k)
 	}
+	for k, v := range l.lastEvtUC {
+		parts = append(parts, "kind:"+k+"="+v)
+	}
 	sort.Strings(parts)
 
 	return strings.Join(parts, ",")
@@ -109,9 +112,10 @@ func (l *ledger) onDeliver(sock, src string, data []byte, localUfrag, localPwd, 
 		}
 		if si.uc || si.nom >= 0 {
 			l.nominated[key] = true
+			// the kind of the latest nominating request on this pair decides which rule applies to it
 			if si.nom >= 0 {
 				l.lastEvtUC[key] = "valued"
-			} else if l.lastEvtUC[key] == "" {
+			} else {
 				l.lastEvtUC[key] = "plain"
 			}
 		}
